@@ -370,10 +370,17 @@ func (g *GcsEmu) handleGcsUpdateMetadataRequest(ctx context.Context, baseUrl Htt
 
 		// Update via json decode.
 		metagen := obj.Metageneration
+		intrinsic := *obj
 		err = json.NewDecoder(r.Body).Decode(&obj)
 		if err != nil {
 			return fmtErrorfCode(http.StatusBadRequest, "failed to parse request: %w", err)
 		}
+		// A metadata patch cannot change what is derived from the object's content or version.
+		obj.Generation = intrinsic.Generation
+		obj.Md5Hash = intrinsic.Md5Hash
+		obj.Crc32c = intrinsic.Crc32c
+		obj.ComponentCount = intrinsic.ComponentCount
+		obj.TimeCreated = intrinsic.TimeCreated
 
 		if err := g.store.UpdateMeta(bucket, filename, obj, metagen+1); err != nil {
 			return fmt.Errorf("failed to update attrs of %s/%s: %w", bucket, filename, err)
